@@ -3,6 +3,7 @@
 // sanitizer / signal death that check.py attributes through the CRASH line.
 #include "common.h"
 #include "lib.h"
+#include "ops.h"
 
 void vp_install_handlers(void);
 void vp_set_status_file(const char* path);
@@ -119,6 +120,7 @@ int main(int argc, char** argv) {
     if (!strcmp(table[i].id, G.prop)) {
       fprintf(G.log, "START\t%s\ttier=%s\tseed=%" PRIu64 "\tpart=%d/%d\tskip=%" PRId64 "\tmode=%s\n", G.prop,
               G.thorough ? "thorough" : "quick", G.seed, G.part, G.nparts, G.skip_upto, G.mode);
+      if (!strcmp(G.prop, "C15") && !G.valgrind) pristine_start();
       process_prelude();
       table[i].fn();
       finish_summary();
